@@ -180,6 +180,12 @@ S1 = [
     "v = 0\n    w = ''\n    while c():\n        v += 1\n        w = w + 'a'\n    use((v, w))",
     "d = {{'k': {e}}}\n    d['k'] = 0\n    d.update(j=1)\n    v = (d['k'], d)",
     "v = [{e}, 0]\n    v[0] = 'z'\n    v.insert(0, None)\n    w = v[0]\n    use(v)",
+    # nested loops and try statements: break / continue in inner loops, in finally, in handlers; a try nested in a finally body
+    "v = 0\n    for w in (1, 2):\n        for u in (1, 2):\n            if c():\n                break\n            v = {e}\n        use(v)\n    use(v)",
+    "v = 0\n    while c():\n        try:\n            v = {e}\n        finally:\n            if c():\n                break\n            v = 'f'\n    use(v)",
+    "v = 0\n    for w in (1, 2):\n        try:\n            boom()\n        except ValueError:\n            v = {e}\n            continue\n        finally:\n            use(v)\n        v = 'g'\n    use(v)",
+    "v = 0\n    try:\n        boom()\n    finally:\n        try:\n            boom()\n            v = {e}\n        except ValueError:\n            v = 'h'\n    use(v)",
+    "v = 0\n    for w in (1, 2):\n        while c():\n            v = {e}\n            if c():\n                continue\n            break\n        else:\n            v = 'e'\n    use(v)",
 ]
 S2 = [
     "w = v\n    use(w)",
